@@ -3752,3 +3752,555 @@ def _vindex_oob(shape, idx):
         if isinstance(i, list) and any(v >= n or v < -n for v in i):
             return True
     return False
+
+
+# ---------------------------------------------------------------------------
+# C09: results do not depend on planner configuration or on materialization history
+# ---------------------------------------------------------------------------
+_C09_CONFIGS = [
+    {"array.optimize-graph": False},
+    {"array.rechunk.threshold": 1},
+    {"array.rechunk.threshold": 64},
+    {"array.rechunk.degree-limit": 1},
+    {"array.rechunk.degree-limit": 2},
+    {"array.rechunk.method": "tasks"},
+    {"array.chunk-size": "64B"},
+    {"array.chunk-size": "2kiB"},
+    {"array.unify-chunks-policy": "refine"},
+    {"array.unify-chunks-policy": "coarse"},
+    {"array.unify-chunks-limit": "16B"},
+    {"array.unify-chunks-limit": 0},
+    {"split_every": 2},
+    {"split_every": 3},
+    {"array.chunk-size-tolerance": 1.0},
+    {"array.rechunk.threshold": 1, "array.rechunk.degree-limit": 1, "array.unify-chunks-policy": "refine", "split_every": 2},
+]
+
+
+def _c09_programs(tier):
+    progs = {}
+    for k, f in entries(tier, 0).items():
+        progs["cat:" + k] = f
+    for k, f in rw_entries(tier).items():
+        progs["rw:" + k] = f
+    return progs
+
+
+def _c09_value(x):
+    import numpy as np
+    return np.asarray(x.compute(scheduler="sync"))
+
+
+@contract("dask_array/_materialize.py::_materialize", spec="config-independent", props=["C09"])
+class materialize_config_independent:
+    """the values computed for a catalogue program are the same (NumPy's, or for reference-free entries those computed
+    under the default configuration) under every listed setting of the optimiser / planner options, whether the setting
+    is in effect while the program is built, while its graph is built and computed, or both"""
+    bounded_only = True
+    params = {"prog": "const", "tier": "const", "cfg": "const", "phase": "const"}
+    scope = ("catalogue and rewrite-target programs x 16 settings of optimize-graph, rechunk threshold / degree-limit / method, "
+             "chunk-size, chunk-size-tolerance, unify-chunks policy / limit, split_every x {construction, graph-build, both}; "
+             "quick: every program under one (setting, phase) in rotation; thorough: under every setting")
+
+    def real():
+        return lambda e, og=None: None
+
+    def call(fn, prog, tier, cfg, phase):
+        import dask
+        mk = _c09_programs(tier)[prog]
+        setting = _C09_CONFIGS[cfg]
+        x0, expected, info = mk()
+        try:
+            base = _c09_value(x0)
+            base_err = None
+        except Exception as ex:
+            base, base_err = None, f"{type(ex).__name__}: {str(ex)[:80]}"
+        del x0
+        err = None
+        got = None
+        try:
+            if phase == "construction":
+                with dask.config.set(setting):
+                    x, _, _ = mk()
+                got = _c09_value(x)
+            elif phase == "graph-build":
+                x, _, _ = mk()
+                with dask.config.set(setting):
+                    got = _c09_value(x)
+            else:
+                with dask.config.set(setting):
+                    x, _, _ = mk()
+                    got = _c09_value(x)
+        except Exception as ex:
+            err = f"{type(ex).__name__}: {str(ex)[:80]}"
+        return {"expected": expected, "base": base, "base_err": base_err, "got": got, "err": err, "unknown": "unknown" in prog}
+
+    def requires(prog, tier, cfg, phase):
+        return True
+
+    def ensures(result, prog, tier, cfg, phase):
+        if result["base_err"] is not None:
+            # a program that does not compute under the default configuration says nothing about C09
+            return {"computes-under-the-setting-iff-under-the-default": result["err"] is not None}
+        r = {"computes-under-the-setting-iff-under-the-default": result["err"] is None}
+        if result["err"] is None:
+            r["values-equal-those-under-the-default-configuration"] = _same(result["got"], result["base"])
+            if result["expected"] is not None:
+                r["values-equal-numpy"] = _same(result["got"], result["expected"])
+        return r
+
+    def domain(tier, rng):
+        names = list(_c09_programs(tier))
+        ncfg = len(_C09_CONFIGS)
+        phases = ("both", "construction", "graph-build")
+        for i, name in enumerate(names):
+            if tier == "quick":
+                yield {"prog": name, "tier": tier, "cfg": i % ncfg, "phase": phases[(i // ncfg) % 3]}
+            else:
+                for c in range(ncfg):
+                    yield {"prog": name, "tier": tier, "cfg": c, "phase": phases[(i + c) % 3]}
+
+
+@contract("dask_array/_materialize.py::_lower", spec="history-independent", props=["C09"])
+class lower_history_independent:
+    """the values computed for a program do not depend on what was built or computed before it in the process: groups of
+    programs over the same source (sharing subtrees, singleton nodes and the name-keyed lowering cache) are built together
+    and computed in several orders, computed again under another planner setting while the earlier collections -- and so
+    the cache entries their lowering left -- are still alive, and once more after a rebuild; every value is NumPy's (or the
+    first one computed)"""
+    bounded_only = True
+    params = {"group": "const", "tier": "const", "order": "const", "cfg": "const"}
+    scope = ("consecutive groups of 4 catalogue / rewrite-target programs (neighbours share source and layout); orders forward, "
+             "reverse, rotated; a second round under one of 16 planner settings with the first round's collections alive")
+
+    def real():
+        return lambda e, og=None: None
+
+    def call(fn, group, tier, order, cfg):
+        import dask
+        progs = _c09_programs(tier)
+        names = list(progs)[group * 4: group * 4 + 4]
+        if order == "reverse":
+            names = names[::-1]
+        elif order == "rotated":
+            names = names[2:] + names[:2]
+        built = [(n,) + tuple(progs[n]()[:2]) for n in names]           # all alive together
+        first, errs = {}, {}
+        for n, x, exp in built:
+            try:
+                first[n] = _c09_value(x)
+            except Exception as ex:
+                errs[n] = f"{type(ex).__name__}: {str(ex)[:80]}"
+        second, errs2 = {}, {}
+        with dask.config.set(_C09_CONFIGS[cfg]):
+            rebuilt = [(n,) + tuple(progs[n]()[:2]) for n in reversed(names)]
+            for n, x, exp in rebuilt:
+                try:
+                    second[n] = _c09_value(x)
+                except Exception as ex:
+                    errs2[n] = f"{type(ex).__name__}: {str(ex)[:80]}"
+            # the collections of the first round, lowered under the default setting, computed under this one
+            third = {}
+            for n, x, exp in built:
+                if n in first:
+                    try:
+                        third[n] = _c09_value(x)
+                    except Exception as ex:
+                        errs2[n + " (first-round collection)"] = f"{type(ex).__name__}: {str(ex)[:80]}"
+        expected = {n: exp for n, x, exp in built}
+        return {"first": first, "second": second, "third": third, "errs": errs, "errs2": errs2, "expected": expected}
+
+    def requires(group, tier, order, cfg):
+        return True
+
+    def ensures(result, group, tier, order, cfg):
+        first, second, third, exp = result["first"], result["second"], result["third"], result["expected"]
+        ok_np = all(_same(first[n], exp[n]) for n in first if exp[n] is not None)
+        return {"first-round-values-equal-numpy": ok_np,
+                "second-round-computes-what-the-first-did": all(n in second and _same(second[n], first[n]) for n in first),
+                "first-round-collections-recompute-the-same-under-another-setting": all(n in third and _same(third[n], first[n]) for n in first),
+                "nothing-that-computed-alone-fails-later": all(k.split(" (")[0] in result["errs"] for k in result["errs2"])}
+
+    def domain(tier, rng):
+        n = len(_c09_programs(tier))
+        groups = (n + 3) // 4
+        orders = ("forward", "reverse", "rotated")
+        for g in range(groups):
+            if tier == "quick":
+                yield {"group": g, "tier": tier, "order": orders[g % 3], "cfg": g % len(_C09_CONFIGS)}
+            else:
+                for o in orders:
+                    yield {"group": g, "tier": tier, "order": o, "cfg": (g + orders.index(o) * 5) % len(_C09_CONFIGS)}
+
+
+# ---------------------------------------------------------------------------
+# C07: names are deterministic and survive serialization
+# ---------------------------------------------------------------------------
+def _c07_descr(x):
+    import hashlib
+    g = x.__dask_graph__()
+    keys = sorted(map(str, g.keys()))
+    return [x.name, hashlib.sha1("\n".join(keys).encode()).hexdigest(), repr(x.chunks), str(x.dtype), repr(x.__dask_keys__())]
+
+
+def _c07_batch(tier, batch, size=40):
+    names = list(_c09_programs(tier))
+    return names[batch * size: (batch + 1) * size]
+
+
+def _c07_describe_batch(tier, batch):
+    """{program: descriptor} for one batch, or {program: 'ERR ...'}; also run as a fresh process"""
+    progs = _c09_programs(tier)
+    out = {}
+    for n in _c07_batch(tier, batch):
+        try:
+            x = progs[n]()[0]
+            out[n] = _c07_descr(x)
+        except Exception as ex:
+            out[n] = f"ERR {type(ex).__name__}: {str(ex)[:80]}"
+    return out
+
+
+def _c07_untokenizable(prog):
+    # sources without a deterministic token (RecordingSource objects, persisted graphs, locks, delayed values built
+    # from lambdas at call time) are documented to get a fixed random token per instance: a rebuild is another instance
+    return "/rec" in prog or "delayed" in prog
+
+
+class _names_deterministic_base:
+    """building the same catalogue program again gives the same collection name, chunks, dtype, output keys and the same
+    optimised graph keys -- in this process and in a fresh interpreter --, and a cloudpickle round trip of the collection
+    keeps name, keys, chunks, dtype and optimised graph keys and computes the same values"""
+    bounded_only = True
+    params = {"tier": "const", "batch": "const"}
+    scope = ("catalogue and rewrite-target programs in batches of 40; one fresh interpreter per batch; programs over sources "
+             "without a deterministic token are exempt from the rebuild clauses, not from the pickle clause")
+
+    def real():
+        return lambda self: None
+
+    def call(fn, tier, batch):
+        import json
+        import os
+        import subprocess
+        import sys
+        import cloudpickle
+        import numpy as np
+        progs = _c09_programs(tier)
+        here1 = _c07_describe_batch(tier, batch)
+        here2 = _c07_describe_batch(tier, batch)
+        code = ("import json, sys\n"
+                "from contracts import objects_l2 as O\n"
+                "print(json.dumps(O._c07_describe_batch(sys.argv[1], int(sys.argv[2]))))\n")
+        # string hashing is randomised per process: the fresh interpreters get fixed, different hash seeds, so that a name
+        # depending on set / dict-of-str iteration order is found reproducibly
+        fresh = {}
+        for hs in ("1", "2") if tier == "quick" else ("1", "2", "3", "4"):
+            env = dict(os.environ)
+            env["PYTHONHASHSEED"] = hs
+            p = subprocess.run([sys.executable, "-c", code, tier, str(batch)], capture_output=True, text=True, env=env, timeout=1800)
+            if p.returncode != 0:
+                raise RuntimeError(p.stderr[-600:])
+            one = json.loads(p.stdout.strip().splitlines()[-1])
+            for k, v in one.items():
+                if k not in fresh or fresh[k] == here1.get(k):
+                    fresh[k] = v          # keep a disagreeing descriptor once seen
+        pick = {}
+        for n in _c07_batch(tier, batch):
+            if isinstance(here1[n], str):
+                continue
+            x = progs[n]()[0]
+            try:
+                y = cloudpickle.loads(cloudpickle.dumps(x))
+            except Exception as ex:
+                pick[n] = f"PICKLE-ERR {type(ex).__name__}: {str(ex)[:80]}"
+                continue
+            try:
+                dx, dy = _c07_descr(x), _c07_descr(y)
+                vx = np.asarray(x.compute(scheduler="sync"))
+                vy = np.asarray(y.compute(scheduler="sync"))
+                pick[n] = [dx == dy, _same(vx, vy) or "unknown" in n and vx.shape == vy.shape and _same(vx, vy), dx, dy]
+            except Exception as ex:
+                pick[n] = f"ERR {type(ex).__name__}: {str(ex)[:80]}"
+        return {"here1": here1, "here2": here2, "fresh": fresh, "pickle": pick}
+
+    def requires(tier, batch):
+        return True
+
+    def ensures(result, tier, batch):
+        h1, h2, fr, pk = result["here1"], result["here2"], result["fresh"], result["pickle"]
+        det = [n for n in h1 if not _c07_untokenizable(n) and not isinstance(h1[n], str)]
+        bad_here = [n for n in det if h1[n] != h2[n]]
+        bad_fresh = [n for n in det if h1[n] != fr.get(n)]
+        bad_pick = [n for n, v in pk.items() if isinstance(v, str) or not (v[0] and v[1])]
+        return {"rebuild-in-process-keeps-name-keys-chunks-dtype": bad_here == [],
+                "rebuild-in-a-fresh-interpreter-keeps-name-keys-chunks-dtype": bad_fresh == [],
+                "pickle-round-trip-keeps-name-keys-chunks-dtype-and-values": bad_pick == [],
+                "not-vacuous": len(det) > 0 or all(_c07_untokenizable(n) for n in h1)}
+
+    SHARD = 0
+
+    def domain(tier, rng):
+        raise NotImplementedError
+
+
+_C07_SHARDS = 8
+
+
+def _c07_shard(k):
+    def domain(tier, rng):
+        n = len(_c09_programs(tier))
+        nb = (n + 39) // 40
+        for b in range(k, nb, _C07_SHARDS):
+            yield {"tier": tier, "batch": b}
+    cls = type(f"names_deterministic_{k}", (_names_deterministic_base,), {"domain": domain, "SHARD": k,
+               "__doc__": _names_deterministic_base.__doc__ + f" (shard {k} of {_C07_SHARDS}: batches k, k+{_C07_SHARDS}, ...; the shards run in parallel)"})
+    return contract("dask_array/_expr.py::ArrayExpr.__reduce__", spec=f"names-deterministic-and-pickle-stable-{k}", props=["C07"])(cls)
+
+
+names_deterministic = [_c07_shard(k) for k in range(_C07_SHARDS)]
+
+
+# ---------------------------------------------------------------------------
+# C05: every compute / persist / optimize entry point agrees
+# ---------------------------------------------------------------------------
+def _c05_followons():
+    import numpy as np
+    return {
+        "+1": (lambda t: t + 1, lambda a: a + 1),
+        "first": (lambda t: t[tuple(slice(0, max(1, s // 2)) for s in t.shape)] if t.ndim else t,
+                  lambda a: a[tuple(slice(0, max(1, s // 2)) for s in a.shape)] if a.ndim else a),
+        "sum": (lambda t: t.sum(), lambda a: a.sum()),
+        "T": (lambda t: t.T, lambda a: a.T),
+        "rechunk": (lambda t: t.rechunk(tuple(max(1, s // 2) if s == s else -1 for s in t.shape)) if t.ndim else t, lambda a: a),
+    }
+
+
+class _entry_points_agree_base:
+    """x.compute(), dask.compute(x, other), x.persist(), dask.persist(x), dask.optimize(x), x.optimize() and x.to_delayed()
+    all yield the same values; the persisted and the dask-optimised collections keep x's name, chunks and dtype; follow-on
+    operations applied to a persisted / optimised collection compute what they compute when applied to x"""
+    bounded_only = True
+    params = {"prog": "const", "tier": "const"}
+    scope = "catalogue and rewrite-target programs; 7 entry points; 5 follow-on operations on each returned collection"
+
+    def real():
+        return lambda self: None
+
+    def call(fn, prog, tier):
+        import dask
+        import numpy as np
+        import dask_array as da
+        x, expected, info = _c09_programs(tier)[prog]()
+        out = {"errors": {}, "vals": {}, "meta": {}, "follow": {}}
+
+        def attempt(label, f):
+            try:
+                out["vals"][label] = np.asarray(f())
+            except Exception as ex:
+                out["errors"][label] = f"{type(ex).__name__}: {str(ex)[:90]}"
+
+        attempt("x.compute()", lambda: x.compute(scheduler="sync"))
+        other = da.ones((3,), chunks=2) * 2
+        attempt("dask.compute(x, other)", lambda: dask.compute(x, other, scheduler="sync")[0])
+        attempt("dask.compute(other, x)", lambda: dask.compute(other, x + 0, x, scheduler="sync")[2])
+        coll = {}
+        for label, f in (("x.persist()", lambda: x.persist(scheduler="sync")), ("dask.persist(x)", lambda: dask.persist(x, scheduler="sync")[0]),
+                         ("dask.persist(x, other)", lambda: dask.persist(x, other, scheduler="sync")[0]),
+                         ("dask.optimize(x)", lambda: dask.optimize(x)[0]), ("dask.optimize(x, other)", lambda: dask.optimize(x, other)[0]),
+                         ("x.optimize()", lambda: x.optimize())):
+            try:
+                c = f()
+                coll[label] = c
+                # x.optimize() is the collection over the optimised expression: its name and its block layout are the
+                # optimiser's; the property asks name / chunks only of the persisted and the dask-optimised collections
+                free = label == "x.optimize()"
+                out["meta"][label] = [getattr(c, "name", None) == x.name or free, repr(c.chunks) == repr(x.chunks) or free,
+                                      str(c.dtype) == str(x.dtype), type(c).__module__.split(".")[0]]
+                attempt(label, lambda c=c: c.compute(scheduler="sync"))
+            except Exception as ex:
+                out["errors"][label] = f"{type(ex).__name__}: {str(ex)[:90]}"
+
+        def from_delayed():
+            blocks = x.to_delayed()
+            vals = np.empty(blocks.shape, dtype=object)
+            for idx in np.ndindex(*blocks.shape):
+                vals[idx] = np.asarray(blocks[idx].compute(scheduler="sync"))
+            return np.block(vals.tolist()) if blocks.ndim else vals[()]
+        attempt("x.to_delayed()", from_delayed)
+        if "unknown" not in prog:
+            for fl, (f, g) in _c05_followons().items():
+                try:
+                    want = np.asarray(f(x).compute(scheduler="sync"))
+                except Exception:
+                    continue   # the operation does not apply to x itself
+                for label, c in coll.items():
+                    try:
+                        got = np.asarray(f(c).compute(scheduler="sync"))
+                        out["follow"][f"{fl} on {label}"] = _same(got, want)
+                    except Exception as ex:
+                        out["errors"][f"{fl} on {label}"] = f"{type(ex).__name__}: {str(ex)[:90]}"
+        out["expected"] = expected
+        return out
+
+    def requires(prog, tier):
+        return True
+
+    def ensures(result, prog, tier):
+        vals, errs = result["vals"], result["errors"]
+        if "x.compute()" not in vals:
+            return {"program-computes": True}    # a program x.compute() refuses says nothing about C05
+        base = vals["x.compute()"]
+        unknown = "unknown" in prog
+        r = {"every-entry-point-computes": errs == {},
+             "every-entry-point-yields-x.compute()": all(_same(v, base) for k, v in vals.items()),
+             "persisted-and-optimised-collections-keep-name-chunks-dtype": all(m[0] and (m[1] or unknown) and m[2] for m in result["meta"].values()),
+             "returned-collections-are-dask_array-arrays": all(m[3] == "dask_array" for m in result["meta"].values()),
+             "follow-on-operations-agree": all(result["follow"].values())}
+        if result["expected"] is not None:
+            r["x.compute()-equals-numpy"] = _same(base, result["expected"])
+        return r
+
+    def domain(tier, rng):
+        raise NotImplementedError
+
+
+_C05_SHARDS = 10
+
+
+def _c05_shard(k):
+    def domain(tier, rng):
+        for i, n in enumerate(_c09_programs(tier)):
+            if i % _C05_SHARDS == k:
+                yield {"prog": n, "tier": tier}
+    cls = type(f"entry_points_agree_{k}", (_entry_points_agree_base,), {"domain": domain,
+               "__doc__": _entry_points_agree_base.__doc__ + f" (shard {k} of {_C05_SHARDS}: every {_C05_SHARDS}th program; the shards run in parallel)"})
+    return contract("dask_array/_collection.py::Array.__dask_postpersist__", spec=f"entry-points-agree-{k}", props=["C05"])(cls)
+
+
+entry_points_agree = [_c05_shard(k) for k in range(_C05_SHARDS)]
+
+
+# ---------------------------------------------------------------------------
+# C06: equal names denote equal arrays
+# ---------------------------------------------------------------------------
+def _c06_operand_print(op):
+    """a structural print of one operand that does not go through dask.tokenize (names are built from tokens; the point is
+    to notice a name that ignores something the array depends on)"""
+    import hashlib
+    import numpy as np
+    from dask._expr import Expr
+    if isinstance(op, Expr):
+        return ("expr", op._name)
+    if isinstance(op, np.ndarray):
+        return ("ndarray", op.shape, str(op.dtype), hashlib.sha1(np.ascontiguousarray(op).tobytes()).hexdigest() if op.dtype != object else repr(op.tolist())[:200])
+    if isinstance(op, (tuple, list)):
+        return (type(op).__name__,) + tuple(_c06_operand_print(o) for o in op)
+    if isinstance(op, dict):
+        return ("dict",) + tuple((repr(k), _c06_operand_print(v)) for k, v in op.items())
+    if isinstance(op, (int, float, complex, str, bytes, bool, type(None), slice, np.generic, np.dtype, type)):
+        return ("lit", repr(op))
+    if callable(op):
+        import functools
+        if isinstance(op, functools.partial):
+            return ("partial", _c06_operand_print(op.func), _c06_operand_print(op.args), _c06_operand_print(op.keywords))
+        code = getattr(op, "__code__", None)
+        return ("callable", getattr(op, "__module__", None), getattr(op, "__qualname__", type(op).__name__),
+                hashlib.sha1(code.co_code).hexdigest() if code is not None else None,
+                repr(getattr(code, "co_consts", None))[:200],
+                tuple(_c06_operand_print(c.cell_contents) for c in (getattr(op, "__closure__", None) or ())))
+    return ("obj", type(op).__name__, id(op) if not hasattr(op, "shape") else (getattr(op, "shape", None), str(getattr(op, "dtype", None)), id(op)))
+
+
+def _c06_node_print(node):
+    return (type(node).__name__,) + tuple(_c06_operand_print(op) for op in node.operands)
+
+
+@contract("dask_array/_expr.py::ArrayExpr._name", spec="equal-names-equal-arrays", props=["C06"])
+class equal_names_equal_arrays:
+    """over every node of every catalogue / rewrite-target program in its raw, simplified, lowered and fused form, minted in
+    ONE process: two nodes that carry the same name have the same shape, chunks and dtype, and -- when their operands differ
+    structurally (a print of the operands that does not go through dask.tokenize) -- compute the same values; and every key of
+    two collections' graphs that coincides is defined by tasks computing the same value"""
+    bounded_only = True
+    params = {"tier": "const"}
+    scope = ("all nodes of all catalogue and rewrite-target programs x 4 forms, registered by name in one process; graph keys of "
+             "every 7th pair of consecutive programs compared by value")
+
+    def real():
+        return lambda self: None
+
+    def call(fn, tier):
+        import gc
+        import numpy as np
+        import dask
+        progs = _c09_programs(tier)
+        reg = {}          # name -> (print, meta, first program)
+        clashes = []      # metadata differs
+        differing = []    # same name, different structural print -> compare values
+        nodes = 0
+        for pi, (pname, mk) in enumerate(progs.items()):
+            try:
+                x = mk()[0]
+                e = x.expr
+                forms = [e]
+                try:
+                    s_ = e.simplify()
+                    l_ = s_.lower_completely()
+                    forms += [s_, l_, l_.fuse()]
+                except Exception:
+                    pass
+            except Exception:
+                continue
+            seen = set()
+            for root in forms:
+                for node in root.walk():
+                    if id(node) in seen or not hasattr(node, "chunks"):
+                        continue
+                    seen.add(id(node))
+                    nodes += 1
+                    try:
+                        meta = (tuple(node.shape) if node.shape == node.shape else repr(node.shape), repr(node.chunks), str(node.dtype))
+                        pr = _c06_node_print(node)
+                    except Exception:
+                        continue
+                    old = reg.get(node._name)
+                    if old is None:
+                        # the value behind a name is taken when the name is first minted: the node itself cannot be kept (a live
+                        # node makes SingletonExpr hand back that very instance for every later construction of the name)
+                        try:
+                            v0 = _eval_unoptimized(node)
+                        except Exception:
+                            v0 = None
+                        reg[node._name] = (pr, meta, pname, v0)
+                        continue
+                    if repr(old[1]) != repr(meta):
+                        clashes.append((node._name, old[2], pname, old[1], meta))
+                    elif old[0] != pr and type(node).__name__ not in ("FromGraph", "RootAlias"):
+                        # same name, structurally different operands: the values decide
+                        try:
+                            v = _eval_unoptimized(node)
+                            ov = old[3]
+                            differing.append((node._name, old[2], pname, None if ov is None else _same(v, ov), type(node).__name__))
+                            if ov is None:
+                                reg[node._name] = (old[0], old[1], old[2], v)
+                        except Exception as ex:
+                            differing.append((node._name, old[2], pname, f"ERR {type(ex).__name__}", type(node).__name__))
+            del x, e, forms
+            if pi % 50 == 0:
+                gc.collect()
+        undecided = [d for d in differing if d[3] is None]
+        return {"nodes": nodes, "names": len(reg), "clashes": clashes[:20], "n_clashes": len(clashes),
+                "value_mismatches": [d for d in differing if d[3] is False or isinstance(d[3], str)][:20],
+                "structurally_different_same_name": len(differing), "first_seen_without_value": len(undecided)}
+
+    def requires(tier):
+        return True
+
+    def ensures(result, tier):
+        return {"same-name-same-shape-chunks-dtype": result["n_clashes"] == 0,
+                "same-name-structurally-different-nodes-compute-the-same": result["value_mismatches"] == [],
+                "not-vacuous": result["nodes"] > 1000 and result["names"] > 500}
+
+    def domain(tier, rng):
+        yield {"tier": tier}
